@@ -16,7 +16,7 @@ RULE = (
     "zeros in the stripped coordinate, negative entries and 6 orders of magnitude. evaluations = A+B+C; distinct_nontrivial = distinct (model "
     "kind, dimension, sources, monitor) cells with |mean xi| > 1e-3 before the call (A) or a non-trivial mixing matrix (B)"
 )
-REQUIRED = {"recentre_calls": 300, "recentre_in_fit": 100, "ortho_states": 300, "ortho_direct": 300, "recentre_joint": 20, "ortho_shared_speed": 20, "two_event_joint_cases": 2, "states_after_a_rejected_trial_move": 20, "ortho_direct_with_non_default_strip_col": 50, "joint_states_with_wide_event_scales": 5}
+REQUIRED = {"recentre_calls": 300, "recentre_in_fit": 100, "ortho_states": 300, "ortho_direct": 300, "recentre_joint": 20, "ortho_shared_speed": 20, "two_event_joint_cases": 2, "states_after_a_rejected_trial_move": 20, "ortho_direct_with_non_default_strip_col": 50, "joint_states_with_wide_event_scales": 5, "recentre_through_statistics_on_a_working_copy": 20}
 ASSUMPTIONS = [
     "float32 exp/log round trip: trajectories compared at 1e-5 absolute, attachment terms at 1e-5 relative (+1e-5 absolute); orthogonality "
     "residual judged relative to |a| |G d| at 1e-5 (measured 4e-8 on the unchanged tree)",
@@ -247,6 +247,27 @@ def run_shard(spec, ctx):
             if src >= 1:
                 _judge_ortho(ctx, st.clone(), g, dict(current_case))
             cls = type(model)
+            if hasattr(cls, "_center_xi_realizations") and i % 3 == 0 and knd != "mixture_logistic":
+                # the re-centring as the fit reaches it (through the statistics step), on a working copy that is NOT the model's own state
+                try:
+                    work = st.clone()
+                    own_before = {v_: (model.state._values.get(v_).clone() if model.state._values.get(v_) is not None else None) for v_ in ("xi", "log_v0", "n_log_nu")
+                                  if v_ in set(model.state.dag.sorted_variables_names)}
+                    with work.auto_fork(None):
+                        model.compute_sufficient_statistics(work)
+                    ctx.count("recentre_through_statistics_on_a_working_copy")
+                    mw = float(work["xi"].double().mean())
+                    if abs(mw) > 1e-6 * max(1.0, float(work["xi"].double().abs().max())):
+                        ctx.violation("recentre/xi-not-zero-mean", f"mean(xi) = {mw} on the state handed to compute_sufficient_statistics (a working copy of the model's state)",
+                                      dict(current_case, via="compute_sufficient_statistics(copy)"))
+                    for v_, b_ in own_before.items():
+                        a_ = model.state._values.get(v_)
+                        if (a_ is None) != (b_ is None) or (a_ is not None and not torch.equal(a_, b_)):
+                            ctx.violation("recentre/other-state-modified", f"compute_sufficient_statistics(copy) changed '{v_}' of the model's own state", dict(current_case))
+                            break
+                except Exception as e:
+                    ctx.count("recentre_through_statistics_skipped")
+                    ctx.note(f"recentre_through_statistics_skipped_{type(e).__name__}", str(e)[:160])
             if hasattr(cls, "_center_xi_realizations"):
                 try:
                     with st.auto_fork(None):
